@@ -470,7 +470,16 @@ type FuncSpec struct {
 	Trusted bool
 }
 
+// ImplSpec: under the listed properties, calls through the interface are
+// verified against the contracts of the concrete type (whose dynamic type is
+// assumed; a closure clause pins down where the interface value comes from).
+type ImplSpec struct {
+	Concrete string // "state.(*stateTracker)"
+	Tags     []string
+}
+
 type SpecFn struct {
+	Pkg     string // short name of the package whose contract file defines it
 	Name    string
 	Params  []Param
 	Ret     string
@@ -500,6 +509,7 @@ type ClosureSpec struct {
 }
 
 type SpecDB struct {
+	Impls      map[string]ImplSpec // interface method prefix "state.(Tracker)" -> concrete receiver
 	Closures   []*ClosureSpec
 	ChanNonNil map[string][]string  // "Type.field" -> tags: values travelling on this channel are non-nil
 	Funcs      map[string]*FuncSpec // key: pkg + "." + Key
@@ -531,7 +541,7 @@ var clauseKeywords = map[string]bool{
 	"property": true, "safety": true, "attr": true, "let": true, "requires": true, "ensures": true,
 	"modifies": true, "loop": true, "invariant": true, "decreases": true, "ghost": true, "step": true,
 	"package": true, "guarded_by": true, "params": true, "results": true, "init": true, "assert": true,
-	"emits": true, "callpre": true, "maintains": true, "ghostvar": true, "trace": true, "closure": true, "bind": true, "chan_nonnil": true, "hint": true,
+	"emits": true, "callpre": true, "maintains": true, "ghostvar": true, "trace": true, "closure": true, "bind": true, "chan_nonnil": true, "hint": true, "impl": true,
 }
 
 // LoadSpecFile reads //@ lines (or all lines for .spec files).
@@ -625,6 +635,7 @@ func (db *SpecDB) LoadSpecFile(path string, trusted bool) error {
 				return fail("%v", err)
 			}
 			sf.File, sf.Line, sf.Trusted = path, c.line, trusted
+			sf.Pkg = pkg
 			if _, dup := db.SpecFns[sf.Name]; dup {
 				return fail("duplicate spec function %s", sf.Name)
 			}
@@ -660,6 +671,17 @@ func (db *SpecDB) LoadSpecFile(path string, trusted bool) error {
 				db.ChanNonNil = map[string][]string{}
 			}
 			db.ChanNonNil[strings.TrimSpace(rest)] = tags
+		case "impl":
+			// impl [tags] pkg.(Iface) pkg.(*Concrete)
+			tags, rest := parseTags(text)
+			parts := strings.Fields(rest)
+			if len(parts) != 2 {
+				return fail("impl [tags] pkg.(Iface) pkg.(*Concrete)")
+			}
+			if db.Impls == nil {
+				db.Impls = map[string]ImplSpec{}
+			}
+			db.Impls[parts[0]] = ImplSpec{Concrete: parts[1], Tags: tags}
 		case "closure":
 			db.Closures = append(db.Closures, &ClosureSpec{Text: text, File: path, Line: c.line})
 		case "ghostvar":
